@@ -12,7 +12,7 @@ import CaoProofs.Lemmas.WfUpvalues
   `Closure` instructions are not used by labels at other positions (`ClosureHandlesDistinct`).
 -/
 namespace Cao.C10b
-open Cao Cao.Compiler Cao.Bytecode Cao.C10
+open Cao Cao.Compiler Cao.Compiler.Wf Cao.Bytecode Cao.C10
 
 /-! ## the label log of a compilation -/
 
